@@ -30,6 +30,7 @@ class Exec:
         self.fixed_list = fixed_list
         self.roots = {c: pm.root() for c, pm in model.paths.items()}
         self.alive = []   # partially consumed generators kept alive
+        self.persist = {}  # long-lived Finder instances
 
     def rel(self, text):
         if not isinstance(text, str):
@@ -48,7 +49,7 @@ class Exec:
         if isinstance(v, (list, tuple)):
             items = [self.canon(x) for x in v]
             return {"list": sorted(items, key=lambda x: json.dumps(x, sort_keys=True))}
-        if isinstance(v, dict) and set(v) == {"json"}:
+        if isinstance(v, dict) and (set(v) == {"json"} or set(v) == {"ordered"}):
             return v
         if isinstance(v, (str, int, float, bool)) or v is None:
             return self.rel(v) if isinstance(v, str) else v
@@ -64,6 +65,11 @@ class Exec:
 
     def _finder(self, name):
         from spil import FindInAll, FindInList, FindInPaths
+        if name.endswith("@"):
+            # one long-lived Finder instance per process: what it was asked before must not show
+            if name not in self.persist:
+                self.persist[name] = self._finder(name[:-1])
+            return self.persist[name]
         if name == "list":
             return FindInList(list(self.fixed_list))
         if name == "all":
@@ -109,9 +115,13 @@ class Exec:
             return unfold_search(c["s"], c["u"], c["e"])
         if k == "match":
             return Sid(c["uri"]).match(c["s"])
+        if k == "find_one":
+            return self._finder(c["finder"]).find_one(c["s"])
         if k == "find":
             gen = self._finder(c["finder"]).find(c["s"])
             if c.get("consume") is None:
+                if c.get("ordered"):
+                    return {"ordered": [self.canon(x) for x in gen]}
                 return list(gen)
             got = []
             for _ in range(c["consume"]):
@@ -161,7 +171,9 @@ def main():
         for cname in model.paths:
             tree.materialise(model, cname, fixed)
         existing = tree.existing_set(model, model.default_config, fixed)
-        fixed_list = sorted(e[2] for e in existing.values())
+        # a fixed, deliberately NOT alphabetical order (list order is what FindInList reports)
+        import hashlib
+        fixed_list = sorted((e[2] for e in existing.values()), key=lambda x: hashlib.md5(x.encode()).hexdigest())
     out = sys.stdout
     out.write(json.dumps({"ready": True, "hashseed": os.environ.get("PYTHONHASHSEED")}) + "\n")
     out.flush()
